@@ -108,6 +108,18 @@ def showDiag (g : Diag) : String :=
 
 def sstOf (d : DS) : SSt := { st := d.st, recs := d.recs }
 
+/-- a canonicalising constructor call -/
+def ctorStep (mode : Mode) (d : DS) (k : Nat) (c : List String) : Option (DS × String) := do
+  let ct ← parseCtor d c
+  if mode = .model then
+    let r := canon d.st ct
+    let (d, n) := ({ d with st := r.1 }).bind k r.2
+    some (d, "=" ++ n)
+  else
+    let r := canonS (sstOf d) ct
+    let (d, n) := ({ d with st := r.1.st, recs := r.1.recs }).bind k r.2
+    some (d, "=" ++ n)
+
 /-- one script operation -/
 def step (mode : Mode) (d : DS) (k : Nat) (a : List String) : Option (DS × String) :=
   let ptrOf : Nat → Option Nat := if mode = .model then ptrOfM d.st else ptrOfS (sstOf d)
@@ -163,24 +175,16 @@ def step (mode : Mode) (d : DS) (k : Nat) (a : List String) : Option (DS × Stri
         match dyn with
         | some v =>
           let sameStr := (List.range d.st.size).any fun j => j != v && (d.st.get j).str == (d.st.get v).str
-          some (d, showDiag (diag d.st ptrOf v) ++ (if sameStr then "+dupstring" else ""))
+          let g := showDiag (diag d.st ptrOf v)
+          some (d, if sameStr then (if g == "clean" then "dupstring" else g ++ "+dupstring") else g)
         | none => some (d, "clean")
     else if op == "E" then do
       let x ← parsePayload.parseVal d v.toList
       let y ← parsePayload.parseVal d t.toList
       let r := if mode = .model then ifaceEqual d.st x y else ifaceEqS d.st x y
       some (d, match r with | .tt => "true" | .ff => "false" | .panic => "panic")
-    else none
-  | c => do
-    let ct ← parseCtor d c
-    if mode = .model then
-      let r := canon d.st ct
-      let (d, n) := ({ d with st := r.1 }).bind k r.2
-      some (d, "=" ++ n)
-    else
-      let r := canonS (sstOf d) ct
-      let (d, n) := ({ d with st := r.1.st, recs := r.1.recs }).bind k r.2
-      some (d, "=" ++ n)
+    else ctorStep mode d k a
+  | c => ctorStep mode d k c
 
 def initDS (mode : Mode) : DS :=
   let base := (List.range 21).map fun i => (i, s!"b{i}")
